@@ -7,6 +7,7 @@ import atexit
 import contextlib
 import gc
 import io
+import os
 import sys
 
 from sim.core import HarnessError
@@ -67,20 +68,75 @@ def _uuid4():
     return _FakeUUID(NAMES.next("u-"))
 
 
+_LIVE_TMP = []      # temp-dir objects created by the current simulated process
+
+
+def _finalize_tempdirs():
+    """What weakref.finalize's exit hook does for tempfile: remove every
+    TemporaryDirectory that is still alive when the process exits."""
+    for ref in list(_LIVE_TMP):
+        t = ref()
+        if t is not None:
+            t.cleanup()
+    del _LIVE_TMP[:]
+
+
 class _SimTemporaryDirectory:
-    """Stands in for tempfile.TemporaryDirectory in sharded_file_accessor:
-    the repo only reads ``.name`` and recreates the directory itself."""
+    """tempfile.TemporaryDirectory on SimFS, with its lifecycle:
+
+    * the directory is created on construction (a raw mkdir);
+    * it is removed when the object is cleaned up, garbage-collected, or --
+      if still alive -- when the process exits.  The real class does the
+      latter through weakref.finalize, whose exit hook is registered with
+      atexit when the first finalizer of the process is created; exit
+      handlers run last-registered-first, so that hook runs BEFORE handlers
+      registered earlier (e.g. an accessor's close()).  The simulated exit
+      hook is therefore queued at the position of the first creation;
+    * a killed process cleans nothing up.
+    """
 
     def __init__(self, *a, **kw):
+        from sim import simfs
         self.name = "/simfs/tmp/" + NAMES.next("t-")
+        self._fs = simfs._CURRENT[0]
+        self._epoch = self._fs.epoch if self._fs is not None else None
+        self._alive = True
+        if self._fs is not None:
+            self._fs.dirs.setdefault("/simfs/tmp", True)
+            os.mkdir(self.name)
+        h = _HANDLERS[0]
+        if h is not None:
+            if not any(e[0] is _finalize_tempdirs for e in h):
+                h.append((_finalize_tempdirs, (), {}))
+            import weakref
+            _LIVE_TMP.append(weakref.ref(self))   # like finalize: weak
 
     def cleanup(self):
-        pass
+        if not self._alive:
+            return
+        self._alive = False
+        fs = self._fs
+        if fs is None or fs.dead or fs.epoch != self._epoch:
+            return
+        pre = self.name + "/"
+        for pth in [q for q in fs.files if q.startswith(pre)]:
+            del fs.files[pth]
+        for pth in [q for q in fs.dirs if q == self.name
+                    or q.startswith(pre)]:
+            del fs.dirs[pth]
+        fs.log.add("TMPDIR-CLEANUP", self.name)
+
+    def __del__(self):
+        try:
+            self.cleanup()
+        except Exception:  # noqa: BLE001 - never raise from a finalizer
+            pass
 
     def __enter__(self):
         return self.name
 
     def __exit__(self, *exc):
+        self.cleanup()
         return False
 
 
@@ -187,6 +243,14 @@ def run_process(fn, *args, run_exit_handlers=True, fs=None, **kwargs):
                 res.status = None
     finally:
         _HANDLERS[0] = None
+        # whatever is still alive belongs to a process that no longer exists:
+        # a normal exit has run the finalizer hook above, a killed process
+        # cleans nothing up
+        for ref in _LIVE_TMP:
+            t = ref()
+            if t is not None:
+                t._alive = False
+        del _LIVE_TMP[:]
         sys.argv = saved_argv
         handlers.clear()
         res.stdout = out.getvalue()
